@@ -71,6 +71,8 @@ MARKUP_CFGS = [
     ('unknown-syntax', {'syntax': 'nosuch', 'options': {'output.format': False}}),
     ('text-url', {'text': ['http://emmet.io [1]', 'www.x.y]', '//a.b [c', 'mailto:a@b', 'a@b.c', 'http://[::1', 'ftp://x/[y]', 'https://u:p@h:99999/', 'HTTP://É.x', 'x:y', '://', 'http://a b', '[', ']']}),
     ('text-url-str', {'text': 'http://emmet.io [1]', 'options': {'markup.href': True}}),
+    ('text-url-reverse', {'text': 'www.emmet.io', 'options': {'output.reverseAttributes': True}}),
+    ('text-url-user-a', {'text': ['a@b.c', 'http://x.y'], 'snippets': {'a': 'a.x[title]', 'vs': 'x-v>a'}}),
     ('strict-callbacks', {'options': dict(STRICT)}),
     ('strict-callbacks-pug', {'syntax': 'pug', 'options': dict(STRICT, **CMT), 'snippets': USER_MARKUP_SNIPPETS}),
 ]
